@@ -419,7 +419,9 @@ def check_span_pairing(ctx, start: FuncInfo, end: FuncInfo, attr="parent", rule=
     else:
       yield from walk(rest, pops + (1 if is_pop(st) else 0), root)
   paths = list(walk([s_ for s_ in end.node.body if not (isinstance(s_, ast.Expr) and isinstance(s_.value, ast.Constant))], 0, False))
-  bad_paths = [p_ for p_ in paths if p_[2] == "fall" and not p_[1] and p_[0] < 1]
+  # an early return counts like falling off the end: every start tag opened a level, so a path that neither pops nor
+  # knows that nothing is open leaves that level open whatever the tag name was
+  bad_paths = [p_ for p_ in paths if not p_[1] and p_[0] < 1]
   n_pops = sum(1 for st in own_nodes(end.node) if is_pop(st))
   ctx.check(not bad_paths and n_pops >= 1, rule, f"{end.qualname}|every end tag closes exactly one span level", ctx.where(end.module, end.node),
             f"{len(paths)} paths: each pops a level unless nothing is open", f"{len(bad_paths)} of {len(paths)} paths through the end-tag handler leave the insertion point where it was although a span is open (pops in the handler: {n_pops})")
@@ -1222,3 +1224,219 @@ def check_default_end(ctx, cls, rule="PAIR-default-end"):
             f"{cls.name} applies {[k for k, v in merged.items() if not v]} only under a configuration test, so the last (unbounded) interval can produce several cues, "
             "but finish() gives a default end to the last list entry only: the other cues keep end=None and to_string raises ValueError "
             "(two regions active to the end of the document, WebVTT with line_position)")
+
+
+def mutated_field_names(ix) -> typing.Set[str]:
+  """Attribute names that some function of the package mutates in place as a container
+  (`x.f.append(..)`, `x.f[k] = v`, `del x.f[k]`)."""
+  cached = getattr(ix, "_mutated_field_names", None)
+  if cached is not None:
+    return cached
+  out = set()
+  for m in ix.modules.values():
+    for n in ast.walk(m.tree):
+      if isinstance(n, ast.Call) and isinstance(n.func, ast.Attribute) and n.func.attr in MUTATING and isinstance(n.func.value, ast.Attribute):
+        out.add(n.func.value.attr)
+      elif isinstance(n, (ast.Assign, ast.AugAssign, ast.Delete)):
+        for t in (n.targets if isinstance(n, (ast.Assign, ast.Delete)) else [n.target]):
+          if isinstance(t, ast.Subscript) and isinstance(t.value, ast.Attribute):
+            out.add(t.value.attr)
+  ix._mutated_field_names = out
+  return out
+
+
+def check_no_shared_containers(ctx, funcs: typing.Iterable[FuncInfo], rule="STATE-share"):
+  """`a.f = b.g` (directly or through single-assignment locals) where both f and g are fields the
+  package mutates in place: from then on the two objects share one container, and an in-place
+  update meant for one of them (a merged style, an appended line) also changes the other.  A copy
+  (`dict(b.g)`, `list(b.g)`, `b.g.copy()`, a comprehension) is what every such site of the repository uses."""
+  from . import match
+  ix = ctx.ix
+  fields = mutated_field_names(ix)
+  n = 0
+  for f in funcs:
+    for st in own_nodes(f.node):
+      if not (isinstance(st, ast.Assign) and len(st.targets) == 1 and isinstance(st.targets[0], ast.Attribute) and st.targets[0].attr in fields):
+        continue
+      n += 1
+      v = st.value
+      hops = 0
+      defs = match.local_defs(f.node)
+      while isinstance(v, ast.Name) and hops < 4:
+        d = defs.get(v.id, [])
+        if len(d) != 1 or v.id in f.params:
+          break
+        v = d[0]
+        hops += 1
+      if isinstance(v, ast.Attribute) and v.attr in fields and unparse(v.value) != unparse(st.targets[0].value):
+        ctx.unit(f.module)
+        ctx.bad(rule, f"{f.qualname}|{unparse(st.targets[0])} = {unparse(v)}", ctx.where(f.module, st),
+                f"`{short(st, 70)}` stores the container `{unparse(v)}` of another object without copying it; `{st.targets[0].attr}` is updated in place elsewhere, "
+                f"so updates meant for `{unparse(st.targets[0].value)}` also change `{unparse(v.value)}`")
+  return n
+
+
+def check_item_sources(ctx, funcs: typing.Iterable[FuncInfo], rule="ITEM-source"):
+  """Nested loops that build one object per inner item (`for line in lines: for text in line: new = T(text..);
+  new.add(..)`): every value put into the per-item object derives from that item, from constants or from
+  values that do not vary with any of the loops.  A value that varies with the *outer* loop only (taken from
+  the container, e.g. its current / last item) and is put into every inner item gives all items of one
+  container the same value where each had its own."""
+  def names(e):
+    return {n.id for n in ast.walk(e) if isinstance(n, ast.Name)}
+  n = 0
+  for f in funcs:
+    deps: typing.Dict[str, typing.Set[str]] = {}
+    for st in own_nodes(f.node):
+      if isinstance(st, ast.Assign):
+        for tg in st.targets:
+          for x in names(tg):
+            deps.setdefault(x, set()).update(names(st.value))
+      elif isinstance(st, ast.AnnAssign) and st.value is not None:
+        for x in names(st.target):
+          deps.setdefault(x, set()).update(names(st.value))
+      elif isinstance(st, (ast.For, ast.comprehension)):
+        for x in names(st.target):
+          deps.setdefault(x, set()).update(names(st.iter))
+
+    def closure(ns):
+      seen, todo = set(), list(ns)
+      while todo:
+        x = todo.pop()
+        if x not in seen:
+          seen.add(x)
+          todo.extend(deps.get(x, ()))
+      return seen
+    created = []
+
+    def visit(node, loops):
+      for ch in ast.iter_child_nodes(node):
+        if isinstance(ch, (ast.FunctionDef, ast.AsyncFunctionDef, ast.Lambda, ast.ClassDef)):
+          continue
+        if isinstance(ch, ast.For):
+          visit(ch, loops + [ch])
+          continue
+        if isinstance(ch, ast.Assign) and len(loops) > 1 and len(ch.targets) == 1 and isinstance(ch.targets[0], ast.Name) and isinstance(ch.value, ast.Call):
+          created.append((ch.targets[0].id, loops[-1], loops[:-1]))
+        visit(ch, loops)
+    visit(f.node, [])
+    for (nm, loop, outer) in created:
+      inner_vars = names(loop.target)
+      outer_vars = set().union(*[names(l.target) for l in outer])
+      for c in ast.walk(loop):
+        if not (isinstance(c, ast.Call) and isinstance(c.func, ast.Attribute) and isinstance(c.func.value, ast.Name) and c.func.value.id == nm and c.args):
+          continue
+        n += 1
+        for a in c.args:
+          ns = names(a)
+          if not ns:
+            continue
+          cl = closure(ns)
+          if not (cl & inner_vars) and (cl & outer_vars):
+            ctx.unit(f.module)
+            ctx.bad(rule, f"{f.qualname}|{unparse(c)}", ctx.where(f.module, c),
+                    f"`{nm}` is built once per `{unparse(loop.target)}`, but `{unparse(a)}` put into it by `{short(c, 60)}` varies only with the enclosing loop over "
+                    f"`{', '.join(sorted(outer_vars))}`: every item of one container receives the same value instead of its own")
+            break
+  return n
+
+
+def check_find_or_create(ctx, funcs: typing.Iterable[FuncInfo], rule="FIND-key"):
+  """`found = None; for r in existing: <filters> found = r; break;  if found is None: found = New(..)`:
+  every parameter that shapes the newly created object is also compared by the search filters.  A
+  parameter that is written into a new object but not compared lets the search return an existing object
+  that differs in exactly that respect."""
+  def names(e):
+    return {n.id for n in ast.walk(e) if isinstance(n, ast.Name)}
+  n = 0
+  for f in funcs:
+    params = set(f.params)
+    for loop in own_nodes(f.node):
+      if not (isinstance(loop, ast.For) and isinstance(loop.target, ast.Name)):
+        continue
+      lv = loop.target.id
+      found = None
+      for st in own_nodes(loop):
+        if isinstance(st, ast.Assign) and len(st.targets) == 1 and isinstance(st.targets[0], ast.Name) and isinstance(st.value, ast.Name) and st.value.id == lv:
+          found = st.targets[0].id
+      if found is None:
+        continue
+      create = None
+      for st in own_nodes(f.node):
+        if isinstance(st, ast.If) and st.lineno > loop.lineno:
+          from . import match
+          if match.is_none_test(st.test, lambda e, _n=found: isinstance(e, ast.Name) and e.id == _n) is True:
+            if any(isinstance(x, ast.Assign) and isinstance(x.targets[0], ast.Name) and x.targets[0].id == found and isinstance(x.value, ast.Call) for x in st.body):
+              create = st
+      if create is None:
+        continue
+      # local dependencies inside the loop (r_origin <- r ...)
+      deps: typing.Dict[str, typing.Set[str]] = {}
+      for st in own_nodes(loop):
+        tg = st.targets[0] if isinstance(st, ast.Assign) and len(st.targets) == 1 else (st.target if isinstance(st, ast.AnnAssign) and st.value is not None else None)
+        if isinstance(tg, ast.Name):
+          deps.setdefault(tg.id, set()).update(names(st.value))
+      compared = set()
+      for st in own_nodes(loop):
+        if isinstance(st, ast.If):
+          compared |= names(st.test)
+      todo = list(compared)
+      while todo:
+        x = todo.pop()
+        for y in deps.get(x, ()):
+          if y not in compared:
+            compared.add(y)
+            todo.append(y)
+      source = names(loop.iter)
+      src_defs = match.local_defs(f.node)
+      for s_ in list(source):
+        for d in src_defs.get(s_, []):
+          source |= names(d)
+      shaping = set()
+      for x in create.body:
+        for c in ast.walk(x):
+          if isinstance(c, ast.Call):
+            for a in list(c.args) + [k.value for k in c.keywords]:
+              shaping |= names(a) & params
+      shaping -= source
+      ctx.unit(f.module)
+      for p in sorted(shaping):
+        n += 1
+        ctx.check(p in compared, rule, f"{f.qualname}|{p}", ctx.where(f.module, loop),
+                  f"`{p}` shapes the created object and is compared by the search over `{unparse(loop.iter)}`",
+                  f"`{p}` is written into the object created when nothing is found, but the search over `{unparse(loop.iter)}` never compares it: "
+                  f"an existing object that differs in `{p}` is returned as a match")
+  return n
+
+
+def check_feed_close(ctx, funcs: typing.Iterable[FuncInfo], rule="PAIR-close"):
+  """html.parser.HTMLParser buffers the tail of what it is fed (text that might be the beginning of a
+  character reference or tag) and hands it to the handlers only on close().  For every local that holds an
+  instance of an HTMLParser subclass of the package: every non-exceptional path from a feed() to the function's
+  exit (or to the next re-binding of the local) passes through close() on the same local."""
+  ix = ctx.ix
+  n = 0
+  for f in funcs:
+    holders = {}
+    for st in own_nodes(f.node):
+      if isinstance(st, ast.Assign) and len(st.targets) == 1 and isinstance(st.targets[0], ast.Name) and isinstance(st.value, ast.Call):
+        r = ix.resolve(f.module, st.value.func, cls=f.cls, func=f)
+        if isinstance(r, ClassInfo) and any(b.split(".")[-1] == "HTMLParser" for c in ix.mro(r) for b in c.ext_bases):
+          holders.setdefault(st.targets[0].id, []).append(st)
+    if not holders:
+      continue
+    ctx.unit(f.module)
+    cfg = CFG(f.node)
+    for var, binds in holders.items():
+      feeds = [c for c in own_nodes(f.node) if isinstance(c, ast.Call) and isinstance(c.func, ast.Attribute) and c.func.attr == "feed" and unparse(c.func.value) == var]
+      closes = {cfg.stmt_node_containing(c) for c in own_nodes(f.node) if isinstance(c, ast.Call) and isinstance(c.func, ast.Attribute) and c.func.attr == "close" and unparse(c.func.value) == var}
+      rebinds = {cfg.node_of(b) for b in binds}
+      for fd in feeds:
+        n += 1
+        src = cfg.stmt_node_containing(fd)
+        leak = cfg.paths_avoiding(src, cfg.exit, closes, skip_exc=True) or any(rb is not None and rb != src and cfg.paths_avoiding(src, rb, closes, skip_exc=True) for rb in rebinds)
+        ctx.check(not leak, rule, f"{f.qualname}|{var}.feed(...) is followed by {var}.close()", ctx.where(f.module, fd),
+                  f"every path from `{short(fd, 40)}` passes `{var}.close()` before `{var}` is dropped",
+                  f"`{short(fd, 40)}` is not followed by `{var}.close()` on every path: HTMLParser holds back the tail of the text (anything after a trailing `&` or `<`) "
+                  f"until close(), so that text never reaches the handlers and is lost")
+  return n
